@@ -228,6 +228,34 @@ T = {
              "two items stamped exactly on a window close followed by an item before the next close", "C09-R7 (writer set of active_windows)", None),
     "C10e": ("C10", "the window processor maintains the store incrementally per occurrence while content and store keep one entry per triple: evicting the older occurrence removes the only copy",
              "the same triple twice in the stream with a firing in between, overlapping windows", "C10-R3 / R4 (eviction bookkeeping: everything loaded is recorded)", None),
+    "C11e": ("C11", "parse_rsp_ql_query resolves each window's WINDOW block with one iterator shared by all declarations: `find` continues after the previous match",
+             "WINDOW blocks written in another order than the FROM NAMED WINDOW declarations: the window whose block was passed runs `?s ?p ?o` over the shared store",
+             "C11-R7 (the block search starts from the complete list for each window)", "missed by C11-R1..R6; C11-R7 added"),
+    "C12e": ("C12", "incremental_sds_plus carries an entry of a window component over only if the triple is still listed as a base fact of the SDS",
+             "a rule concluding into a window-annotated predicate whose premises are all carried over (no new delta)",
+             "C12-R11 (the carried-over facts are filtered by expiry only)", "missed by C12-R1..R10; C12-R11 added"),
+    "C13e": ("C13", "resolve_query_term separates prefix label and local name with rsplit_once(':') instead of splitn(2, ':')",
+             "a prefixed name whose local part contains a colon (`dbr:Category:Physics`)",
+             "C13-R11 (the prefix expander cuts at the first colon)", "missed by C13-R1..R10; C13-R11 added"),
+    "C14e": ("C14", "looks_like_absolute_iri checks the scheme with one `all(..)` over its bytes: vacuously true for the empty scheme",
+             "an object literal that starts with `:` and contains `>`, a line break or a trailing backslash",
+             "C14-R8 (the IRI guess requires a first scheme character)", "missed by C14-R1..R7; C14-R8 added"),
+    "C15e": ("C15", "SparqlDatabase::union re-encodes the other side's quoted triples in place into this database's store and shares that store with the result, while the dictionary is cloned",
+             "a union of two databases with quoted triples, then decoding through the operand or encoding a new quoted triple on either side",
+             "C15-R (all re-encodings target one dictionary and one quoted store)", None),
+    "C16e": ("C16", "sparql_skip_ws takes the comment body as `comment.lines().next()`: a lone carriage return no longer ends a comment",
+             "a `#` comment closed by CR alone, followed by query text or by trailing garbage",
+             "C16-R10 (a comment runs to the first CR or LF)", "first caught only because the slice `&comment[line.len()..]` had no certificate (C16-R1) - the wrong reason: the slice is safe. "
+             "The prover now proves lengths of first pieces / prefixes, and C16-R10 reports the terminator set"),
+    "C17e": ("C17", "detect_specific_sparql_error hands check_missing_prefix the lower-cased copy of the request together with an offset clamped against the original text",
+             "a character whose lower-case form has another UTF-8 length (U+212A, U+0130 ...) before the error position",
+             "C17-R2 (certificates: the (text, offset) pair every caller passes is a certified pair)", None),
+    "C18e": ("C18", "unify_patterns unifies in place and the rule loop of backward_chaining_helper re-uses the working copy after a conclusion failed to unify",
+             "a rule with two conclusions where the first fails to unify after binding a variable the second needs free",
+             "C18-R (the substitution starts as a clone of the caller's bindings; unify_patterns returns that substitution)", None),
+    "C19e": ("C19", "compute_repairs replaces only the first kept set a new candidate supersedes instead of dropping all of them",
+             "two kept consistent sets that are both strict subsets of a later candidate",
+             "C19-R (admitting a candidate evicts every kept subset of it)", None),
     "C16b": ("C16", "sparql_aggregate returns the slice matched by the case-insensitive keyword helper instead of the canonical literal",
              "an aggregate keyword not written in upper case", "C16-R4 (keyword text never reaches the tree)",
              "missed by C16-R1..R3 (C01-R1 fired only through a floor, for the wrong reason); C16-R4 added, C01-R1 reads constant tables"),
